@@ -259,7 +259,10 @@ func TestVerif_C11_AsmRoutines(t *testing.T) {
 }
 
 func verifLen(t *rapid.T, label string) (int, string) {
-	switch gen.Pick(t, label+".lclass", "kernels", "kernels", "uniform", "small", "zero") {
+	switch gen.Pick(t, label+".lclass", "kernels", "kernels", "kernels", "kernels", "kernels", "kernels", "uniform", "uniform", "uniform", "small", "small", "small", "zero", "zero", "zero", "threshold") {
+	case "threshold":
+		// sizes at which bulk loops change shape (page / 256 blocks) and just around them
+		return []int{4096, 4096, 8192}[gen.Uniform(t, label+".thr", 0, 2)] + gen.Uniform(t, label+".thrd", 0, 120) - 40, "threshold"
 	case "kernels":
 		return 256*gen.Int(t, label+".a", 0, 3) + 128*gen.Int(t, label+".b", 0, 1) + 64*gen.Int(t, label+".c", 0, 1) +
 			32*gen.Int(t, label+".d", 0, 1) + 16*gen.Int(t, label+".e", 0, 1) + gen.Uniform(t, label+".f", 0, 15), "kernels"
